@@ -3,7 +3,7 @@
    launch failures), every jobs >= 1, both --stop-early settings, at EVERY state of the loop. *)
 From Coq Require Import List Arith Bool NArith.
 From Conductor Require Import Model.Loader Model.Planner Model.Exec Model.RunCase
-  Proofs.ExecInv Proofs.ExecTheorems Proofs.ExecMain Proofs.PlannerInv Proofs.PlannerExact Proofs.PlannerOrder Proofs.Compose.
+  Proofs.ExecInv Proofs.ExecTheorems Proofs.ExecMain Proofs.PlannerInv Proofs.PlannerExact Proofs.PlannerOrder Proofs.Compose Proofs.ComposeExec Proofs.ComposeOrder.
 Import ListNotations.
 
 (* [trace s] lists the events newest first.  If operation x is started at some point of the run,
@@ -39,6 +39,22 @@ Theorem C01_direct_deps_first_end_to_end :
              In (EFinish od 0%N) pre /\ (forall sl', ~ In (EStart od sl') post).
 Proof. exact cond_run_direct_deps_first. Qed.
 Print Assumptions C01_direct_deps_first_end_to_end.
+
+(* The same, transitively: EVERY task reached from the starting task along dependency edges whose
+   targets are all executed in this invocation ([RPath]: a non-empty path in the task graph, every
+   node after the first with `runs = true`) has finished with status 0 before, was started before,
+   and is not started afterwards.  This is the literal property minus exactly the F1 case (a path
+   that passes through a task that is NOT executed, i.e. a cached experiment). *)
+Theorem C01_transitive_deps_first_end_to_end :
+  forall fuel tasks c loaded ps evs,
+  cond_run fuel tasks c = ORun loaded ps (Some evs) -> 1 <= c_jobs c ->
+  forall pre ox sl post, evs = pre ++ EStart ox sl :: post ->
+  ox < length (ops ps) /\
+  forall d, RPath tasks c (op_task (op_at (ops ps) ox)) d ->
+  exists od, od < length (ops ps) /\ op_task (op_at (ops ps) od) = d /\
+             In (EFinish od 0%N) pre /\ (exists sl', In (EStart od sl') pre) /\ (forall sl', ~ In (EStart od sl') post).
+Proof. exact cond_run_transitive_deps_first. Qed.
+Print Assumptions C01_transitive_deps_first_end_to_end.
 
 (* The operation graph the planner builds has exactly the edges of the task graph between
    lowered tasks (both directions), and all_ops is a topological order of it. *)
